@@ -391,7 +391,7 @@ def matchesC : Cons → BlobMeta → Bool
     (pn.isNil || matchesP pn bm) &&
     (fl.isNil || matchesF fl bm) &&
     (dr.isNil || matchesD dr bm) &&
-    optInt f.blobSize bm.size &&
+    (!f.blobSize.isSome || optInt f.blobSize bm.size) &&
     (f.pfx.isEmpty || hasPrefix bm.ref f.pfx)
 def matchesP : Perm → BlobMeta → Bool
   | .nil, _ => false
@@ -513,6 +513,9 @@ def andThen (r : R) (k : St → R) : R :=
   | .ok (true, st) => k st
   | other => other
 
+/-- `addCond` of genMatcher (query.go:1530) for a field that is only sometimes set -/
+def cond (present : Bool) (k : St → R) (r : R) : R := if present then andThen r k else r
+
 /-- the closure LogicalConstraint.matcher returns (query.go:1615) -/
 def logical (op : Op) (ma mb : St → R) (st : St) : R :=
   match ma st with
@@ -552,12 +555,17 @@ def anyOf (w : World) (m : BlobMeta → St → R) : List Ref → St → R
       | .ok (true, st1) => .ok (true, st1)
       | .ok (false, st1) => anyOf w m rs st1
 
-/-- the state of the loop of RelationConstraint.match -/
+/-- the state of the loop of RelationConstraint.match: `checked` is `permanodesChecked` (a node
+enters it when the next claim is looked at – `lastChecked` – which no observation can tell from
+entering it at once) -/
 structure RelAcc where
   anyGood : Bool
   anyBad : Bool
-  lastChecked : Option Ref
   checked : List Ref
+
+/-- relationRef (query.go:868, :871): the related node a claim names -/
+def relTarget (t : Pk.Ref.Tbl) (child : Bool) (cl : Claim) : Option Ref :=
+  if child then (if refOK t cl.value then some cl.value else none) else some cl.pn
 
 /-- RelationConstraint.match's callback over the claims `foreachClaim` yields (query.go:887-933);
 `child = true`: relation "child" (claims of pn, related node = the value), else "parent" (claims
@@ -566,16 +574,12 @@ def relLoop (t : Pk.Ref.Tbl) (w : World) (r : RFlat) (child isAny : Bool) (m : B
     List Claim → RelAcc → St → Except Err (RelAcc × St)
   | [], acc, st => .ok (acc, st)
   | cl :: cls, acc, st =>
-    if !r.matchesAttr cl.attr then relLoop t w r child isAny m cls acc st else
-    let acc := match acc.lastChecked with
-      | some l => { acc with checked := l :: acc.checked, lastChecked := none }
-      | none => acc
-    let rel? : Option Ref := if child then (if refOK t cl.value then some cl.value else none) else some cl.pn
-    match rel? with
+    match (if r.matchesAttr cl.attr then relTarget t child cl else none) with
     | none => relLoop t w r child isAny m cls acc st
     | some rel =>
-      if acc.checked.contains rel then relLoop t w r child isAny m cls acc st else
-      if !w.hasAttrValue cl.pn cl.attr cl.value then relLoop t w r child isAny m cls acc st else
+      if acc.checked.contains rel || !w.hasAttrValue cl.pn cl.attr cl.value then
+        relLoop t w r child isAny m cls acc st
+      else
       match w.getBlob rel with
       | none => .error .relNotExist
       | some rb =>
@@ -583,10 +587,10 @@ def relLoop (t : Pk.Ref.Tbl) (w : World) (r : RFlat) (child isAny : Bool) (m : B
         | .error e => .error e
         | .ok (true, st1) =>
           if isAny then .ok ({ acc with anyGood := true }, st1)
-          else relLoop t w r child isAny m cls { acc with anyGood := true, lastChecked := some rel } st1
+          else relLoop t w r child isAny m cls { acc with anyGood := true, checked := rel :: acc.checked } st1
         | .ok (false, st1) =>
           if !isAny then .ok ({ acc with anyBad := true }, st1)
-          else relLoop t w r child isAny m cls { acc with anyBad := true, lastChecked := some rel } st1
+          else relLoop t w r child isAny m cls { acc with anyBad := true, checked := rel :: acc.checked } st1
 
 /-- RelationConstraint.match (query.go:854) -/
 def relMatch (t : Pk.Ref.Tbl) (w : World) (r : RFlat) (isAny : Bool) (m : BlobMeta → St → R)
@@ -595,7 +599,7 @@ def relMatch (t : Pk.Ref.Tbl) (w : World) (r : RFlat) (isAny : Bool) (m : BlobMe
   -- ForeachClaim: pm.Claims; ForeachClaimBack: claimBack[pn] (claims whose value parses to pn)
   let cls := if child then w.claims.filter (fun c => c.pn == pn)
              else w.claims.filter (fun c => c.value == pn && refOK t c.value)
-  match relLoop t w r child isAny m cls ⟨false, false, none, []⟩ st with
+  match relLoop t w r child isAny m cls ⟨false, false, []⟩ st with
   | .error e => .error e
   | .ok (acc, st1) => if isAny then .ok (acc.anyGood, st1) else .ok (acc.anyGood && !acc.anyBad, st1)
 
@@ -666,16 +670,15 @@ def matchC : Cons → BlobMeta → St → R
   | .mk op a b f pn fl dr, bm, st =>
     if !(op != .none || f.anything || !f.camliType.isEmpty || f.anyCamliType || !pn.isNil || !fl.isNil ||
       !dr.isNil || f.blobSize.isSome || !f.pfx.isEmpty) then .ok (false, st) else
-    let r : R := .ok (true, st)
-    let r := if op != .none then andThen r (logical op (fun s => matchC a bm s) (fun s => matchC b bm s)) else r
-    let r := if !f.camliType.isEmpty then andThen r (fun s => .ok (bm.camliType == f.camliType, s)) else r
-    let r := if f.anyCamliType then andThen r (fun s => .ok (!bm.camliType.isEmpty, s)) else r
-    let r := if !pn.isNil then andThen r (fun s => matchP pn bm s) else r
-    let r := if !fl.isNil then andThen r (fun s => matchF fl bm s) else r
-    let r := if !dr.isNil then andThen r (fun s => matchD dr bm s) else r
-    let r := if f.blobSize.isSome then andThen r (fun s => .ok (optInt f.blobSize bm.size, s)) else r
-    let r := if !f.pfx.isEmpty then andThen r (fun s => .ok (hasPrefix bm.ref f.pfx, s)) else r
-    r
+    cond (!f.pfx.isEmpty) (fun s => .ok (hasPrefix bm.ref f.pfx, s)) <|
+    cond f.blobSize.isSome (fun s => .ok (optInt f.blobSize bm.size, s)) <|
+    cond (!dr.isNil) (fun s => matchD dr bm s) <|
+    cond (!fl.isNil) (fun s => matchF fl bm s) <|
+    cond (!pn.isNil) (fun s => matchP pn bm s) <|
+    cond f.anyCamliType (fun s => .ok (!bm.camliType.isEmpty, s)) <|
+    cond (!f.camliType.isEmpty) (fun s => .ok (bm.camliType == f.camliType, s)) <|
+    cond (op != .none) (logical op (fun s => matchC a bm s) (fun s => matchC b bm s)) <|
+    .ok (true, st)
 /-- PermanodeConstraint.blobMatches (query.go:1706) -/
 def matchP : Perm → BlobMeta → St → R
   | .nil, _, _ => .error .nilDeref
